@@ -338,11 +338,28 @@ func checkCloneKinds(p *Prog, r *Result, rule string) {
 // helperRecursion: does h call the recursive clone cv, and is any such call guarded by a comparison with a reflect.Kind
 // constant inside h (a fast path that leaves some kinds shallow)?
 func helperRecursion(h, cv *ssa.Function) (recurses, conditional bool) {
+	return helperRecursionDepth(h, cv, 2)
+}
+
+func helperRecursionDepth(h, cv *ssa.Function, depth int) (recurses, conditional bool) {
 	for _, b := range h.Blocks {
 		for _, in := range b.Instrs {
 			call, ok := in.(*ssa.Call)
-			if !ok || call.Call.StaticCallee() != cv {
+			if !ok {
 				continue
+			}
+			if g := call.Call.StaticCallee(); g != cv {
+				// a further helper on the way back to the clone
+				if depth == 0 || g == nil || g == h || g.Blocks == nil || g.Pkg != h.Pkg {
+					continue
+				}
+				rec, cond := helperRecursionDepth(g, cv, depth-1)
+				if !rec {
+					continue
+				}
+				if cond {
+					conditional = true
+				}
 			}
 			recurses = true
 			for d := b.Idom(); d != nil; d = d.Idom() {
